@@ -141,6 +141,18 @@ static std::vector<Cfg> configs(const std::string &planner, bool thorough)
     v.back().starts = 3;
     add("utrap4", "R2", "states", 0.3, 0.7, 0.05, B);
     v.back().starts = 3;
+    // projection-based planners: projection cells that straddle obstacle boundaries
+    static const char *projPlanners[] = {"SBL", "KPIECE1", "BKPIECE1", "LBKPIECE1", "ProjEST", "PDST", "STRIDE", "STRIDE+proj", "EST", "BiEST"};
+    for (const char *pp : projPlanners)
+        if (planner == pp)
+        {
+            add("wallgap4", "R2", "state", 0.3, 0, 0.02, B);
+            v.back().proj = "coarse";
+            add("corridor6", "R2", "state", 0.3, 0.7, 0.05, 2 * B);
+            v.back().proj = "coarse";
+            add("diag4", "R2", "state", 0.3, 10, 0.02, B);
+            v.back().proj = "coarse";
+        }
     static const char *carPlanners[] = {"RRT", "EST", "KPIECE1", "SST", "PDST", "RLRT"};
     for (const char *cp : carPlanners)
         if (planner == cp)
